@@ -322,14 +322,16 @@ impl Opts {
 							let Some(cmd) = else_cmds.pop() else { break };
 							body.push(cmd);
 						}
-						else_cmds.push(Cmd::Repeat{ body, count: CmdArg::Count(repeat_count) });
+						body.reverse();
+						else_cmds.push(Cmd::Repeat{ body, count: CmdArg::Count(repeat_count + 1) });
 					} else {
 						let mut body = vec![];
 						for _ in 0..cmd_count {
 							let Some(cmd) = then_cmds.pop() else { break };
 							body.push(cmd);
 						}
-						then_cmds.push(Cmd::Repeat{ body, count: CmdArg::Count(repeat_count) });
+						body.reverse();
+						then_cmds.push(Cmd::Repeat{ body, count: CmdArg::Count(repeat_count + 1) });
 					}
 				}
 				"-m" | "--move" => {
